@@ -596,6 +596,7 @@ def check_C04(run):
                           {"position": ft, "key_1": byfeat[ft], "key_2": key, "where": where})
         byfeat.setdefault(ft, key)
 
+    nkprem = 0
     for (e, m), a, b in zip(meta, impl, model):
         cls = move_class(e["fen"], m, b)
         run.note_case((e["fen"], m), cls, nontrivial=not cls.startswith("quiet-"))
@@ -605,6 +606,13 @@ def check_C04(run):
             continue
         da = kv(a)
         db = kv(b)
+        if m != "null":
+            nkprem += 1
+            if db.get("kprem") != "1":
+                nv += 1
+                if nv <= 25:
+                    run.violation("theorem-premise", "key_move_b (the hypothesis of C04_predicted_key_is_recomputed_key) is false on a legal move: "
+                                  "the theorem does not cover it", {"fen": e["fen"], "move": m, "class": cls, "model": b}, found_input=False)
         h, calc = da["hash"], da["calc"]
         pred = da.get("pred", h)
         if not (h == calc == pred):
@@ -685,10 +693,13 @@ def check_C04(run):
     run.cov["distinct_keys_seen"] = len(feats)
     run.cov["traces_validated_against_impl"] = len(reqs) + len(plays)
     run.sample({"request": reqs[0], "implementation": impl[0][:400]})
+    run.cov["key_move_b_true_on_legal_moves"] = nkprem
     run.cov["explanation"] = ("key_min_distance (two feature sets differing in 1..4 features have different keys) is proved by a vm_compute "
-                              "sweep over the regenerated key tables; incremental = recomputed is PARTIAL (checked by correspondence on "
-                              "every legal move of sampled positions and along play-outs); the 'differing positions had different keys' "
-                              "clause is empirical by its own wording and is measured here over all positions met")
+                              "sweep over the regenerated key tables; the recomputed key is proved to be a function of the abstract "
+                              "state alone (key_of_abs); predicted key = recomputed key after the move, and makemove stores the prediction, "
+                              f"are proved for every move kind under the executable test key_move_b, evaluated (true) on all {nkprem} legal "
+                              "moves of this run; that every legal move of D passes it rests on these runs; the 'differing positions had "
+                              "different keys' clause is empirical by its own wording and is measured here over all positions met")
 
 
 CHECKS.update({"C01": check_C01, "C02": check_C02, "C04": check_C04, "C08": check_C08})
